@@ -1,3 +1,29 @@
 """Per-property claims that go into MANIFEST.json (tools/gen_manifest.py)."""
-CLAIMS = {}
+
+COMMON_NOTE = (
+    "Trusted: Coq 8.16.1 kernel + vm_compute; tools/translate.py (regenerates coq/theories/Gen from /repo on every run); "
+    "the hand-written procedural model is tied to the code by differential execution of the extracted model "
+    "(ExtrOcamlBasic only) against the implementation, which is testing; CPython's str.upper/\\s/\\d tables are "
+    "re-read from the running interpreter. No axioms (Print Assumptions: closed under the global context)."
+)
+
+CLAIMS = {
+    "C01": {
+        "text": "Theorem C01_accept: for every text, the model of IBAN(text) succeeds iff the extracted ISO 13616 predicate "
+                "holds of clean(text) over the table regenerated from the tree; C01_alphabet: accepted => 0-9A-Z only, length <= 34. "
+                "Generic proof + data obligations (cfg_ok, row_ok per country, env_wf) re-discharged by vm_compute on every run; "
+                "model tied to the code by translator (regex sites/patterns/flags, step list, table) and correspondence streams.",
+        "note": COMMON_NOTE,
+        "technique": "Coq proof (regex-derivative matcher correctness, mod-97 arithmetic) + generated data obligations + extracted-model correspondence",
+        "design_ref": "DESIGN.md §4 C01",
+    },
+    "C02": {
+        "text": "Theorems C02_generate / C02_unique / C02_range: for every country row and every structure-conforming BBAN of any "
+                "length, from_bban yields the ISO check digits and a valid IBAN; among all 100 digit pairs exactly the computed "
+                "one is accepted and it lies in 02..98 (lia over Euclidean division; no bound on the BBAN).",
+        "note": COMMON_NOTE,
+        "technique": "Coq proof (mod-97 uniqueness by lia) + generated data obligations + extracted-model correspondence",
+        "design_ref": "DESIGN.md §4 C02",
+    },
+}
 NOT_APPLICABLE = {}
